@@ -117,7 +117,11 @@ func c14GenRepo(r *rand.Rand, n int, firstID int) []c14Rec {
 			rc = c14Rec{rec: refbmc.SDRRecord{ID: id, Type: 0x01, Body: body}, want: want}
 		default:
 			typ := []byte{0x02, 0x11, 0x12, 0xc0, 0x03, 0x08}[r.Intn(6)]
-			rc = c14Rec{rec: refbmc.SDRRecord{ID: id, Type: typ, Body: rbytes(r, r.Intn(60))}}
+			blen := r.Intn(60)
+			if r.Intn(3) == 0 {
+				blen = r.Intn(256) // other record types may use the whole one-byte length; only their header is read
+			}
+			rc = c14Rec{rec: refbmc.SDRRecord{ID: id, Type: typ, Body: rbytes(r, blen)}}
 		}
 		out = append(out, rc)
 	}
